@@ -203,27 +203,35 @@ fn commit_changes(plan: &Plan) -> Result<()> {
         .collect();
 
     if !files_to_add.is_empty() {
-        let status = Command::new("git")
+        // The children's output is captured: what git prints must not end up on renamify's
+        // standard output (with --output json that is reserved for the one JSON document)
+        let added = Command::new("git")
             .arg("add")
             .args(&files_to_add)
-            .status()
+            .output()
             .context("Failed to add files to git")?;
 
-        if !status.success() {
-            return Err(anyhow!("Failed to add files to git"));
+        if !added.status.success() {
+            return Err(anyhow!(
+                "Failed to add files to git: {}",
+                String::from_utf8_lossy(&added.stderr).trim()
+            ));
         }
     }
 
     // Create commit message
     let message = format!("Replace '{}' with '{}'", plan.search, plan.replace);
 
-    let status = Command::new("git")
+    let committed = Command::new("git")
         .args(["commit", "-m", &message])
-        .status()
+        .output()
         .context("Failed to create git commit")?;
 
-    if !status.success() {
-        return Err(anyhow!("Failed to create git commit"));
+    if !committed.status.success() {
+        return Err(anyhow!(
+            "Failed to create git commit: {}",
+            String::from_utf8_lossy(&committed.stderr).trim()
+        ));
     }
 
     Ok(())
